@@ -30,7 +30,7 @@ func init() {
 		NonTrivial: nonTrivial,
 		Rule: "one codec (octal/hex/unicode/utf16) per case; ops format/formatstr/roundtrip on random bytes or UTF-8 " +
 			"(all four length classes, surrogate boundary, invalid bytes), parse/parsestr/parsebytes on reference-formatted " +
-			"output, on well-formed escapes embedded in text, and on every prefix of a malformed token stream; " +
+			"output, on well-formed escapes embedded in text, and on every prefix of a malformed token stream; large stream (tag large): inputs of 1 KB-64 KB (thorough -256 KB) at sizes 1023..65537 around 1024/4096/8192/65536, long escape runs, an escape straddling offset 4096/65536/end, long malformed streams, Format of up to 64 KB incl. supplementary-rune runs that outgrow Utf16Format's capacity, parsen with dst = len, len+1 (len-1 up to 4 KB); " +
 			"non-trivial = at least one Format of non-empty input or one Parse whose input contains a backslash; distinct by hash of the op list",
 		Classify: classify,
 		Parallel: true,
@@ -136,6 +136,19 @@ func impl(c core.Case) []string {
 				dst := make([]byte, n)
 				k := f.parse(dst, in)
 				out = fmt.Sprintf("%d %s", k, hx(dst))
+			case t[0] == "parsen" && len(t) == 3:
+				n, err := strconv.Atoi(t[2])
+				if err != nil || n < 0 {
+					return "bad-op"
+				}
+				dst := make([]byte, n)
+				k := f.parse(dst, in)
+				for _, b := range dst[k:] {
+					if b != 0 {
+						return "overrun" // wrote behind the returned length
+					}
+				}
+				out = fmt.Sprintf("%d %s", k, hx(dst[:k]))
 			case t[0] == "parsestr" && len(t) == 2:
 				out = hx([]byte(f.parseStr(string(in))))
 			case t[0] == "parsebytes" && len(t) == 2:
@@ -358,9 +371,12 @@ func check(c core.Case, out []string) *core.Failure {
 			if !bytes.Equal(got, want) {
 				return fail("roundtrip", "Parse(Format(%x)) = %x, want %x", in, got, want)
 			}
-		case "parse", "parsestr", "parsebytes":
+		case "parse", "parsestr", "parsebytes", "parsen":
 			dstlen := len(in)
-			if t[0] == "parse" {
+			if out[i] == "overrun" {
+				return fail("parse-overrun", "wrote into dst behind the returned length")
+			}
+			if t[0] == "parse" || t[0] == "parsen" {
 				if len(t) != 3 {
 					continue
 				}
@@ -373,7 +389,17 @@ func check(c core.Case, out []string) *core.Failure {
 				return fail("parse-panic", "Parse panicked on %q", in)
 			}
 			var got []byte
-			if t[0] == "parse" {
+			if t[0] == "parsen" {
+				f := strings.Fields(out[i])
+				if len(f) != 2 {
+					return fail("parse-output", "unexpected output")
+				}
+				n, _ := strconv.Atoi(f[0])
+				got, _ = unhx(f[1])
+				if n != len(got) || n > len(in) {
+					return fail("parse-len", "returned %d, %d bytes, len(input) = %d", n, len(got), len(in))
+				}
+			} else if t[0] == "parse" {
 				f := strings.Fields(out[i])
 				if len(f) != 2 {
 					return fail("parse-output", "unexpected output")
@@ -455,6 +481,9 @@ func classify(c core.Case, out []string) []string {
 		}
 		switch t[0] {
 		case "format", "formatstr", "roundtrip":
+			if len(in) >= 1024 {
+				add("large-format")
+			}
 			if k == "unicode" || k == "utf16" {
 				for _, r := range string(in) {
 					switch {
@@ -476,8 +505,16 @@ func classify(c core.Case, out []string) []string {
 			} else if len(in) > 0 {
 				add("fmt-bytes")
 			}
-		case "parse", "parsestr", "parsebytes":
-			if t[0] == "parse" && len(t) == 3 {
+		case "parse", "parsestr", "parsebytes", "parsen":
+			if len(in) >= 1024 {
+				add("large-parse")
+				for _, th := range []int{4096, 65536} {
+					if len(in) > th {
+						add(fmt.Sprintf("large-parse>%d", th))
+					}
+				}
+			}
+			if (t[0] == "parse" || t[0] == "parsen") && len(t) == 3 {
 				if n, _ := strconv.Atoi(t[2]); n < len(in) {
 					add("short-dst-nopanic")
 					continue
@@ -496,7 +533,7 @@ func classify(c core.Case, out []string) []string {
 				continue
 			}
 			var got []byte
-			if t[0] == "parse" {
+			if t[0] == "parse" || t[0] == "parsen" {
 				f := strings.Fields(out[i])
 				if len(f) == 2 {
 					n, _ := strconv.Atoi(f[0])
@@ -644,8 +681,125 @@ func malformedTokens(k string) []string {
 
 func header(k string) string { return "@ C07 " + k }
 
+// largeSizes: byte lengths around every plausible internal threshold.
+var largeSizes = []int{1023, 1024, 1025, 2048, 4095, 4096, 4097, 8191, 8192, 8193, 16384, 32768, 65535, 65536, 65537}
+
+// genLarge: inputs of 1 KB - 64 KB (thorough: up to 256 KB), few ops per case.
+func genLarge(r *core.Rand, k, tier string) core.Case {
+	lines := []string{header(k)}
+	size := largeSizes[r.Intn(len(largeSizes))] // exact threshold sizes
+	if r.Chance(25) {
+		size = r.Range(1000, 70000)
+	}
+	if tier == "thorough" && r.Chance(30) {
+		size = []int{131071, 131072, 131073, 262143, 262144, 262145, r.Range(70000, 262144)}[r.Intn(7)]
+	}
+	w := escWidth[k]
+	if k == "utf16" && r.Bool() {
+		w = 12
+	}
+	if r.Chance(35) {
+		// Format / round trip of `size/8 .. size` input bytes: output buffers of 4x-10x that size;
+		// for utf16 many supplementary runes so that the RuneCount*6 capacity is outgrown repeatedly
+		n := size
+		if n > 65537 {
+			n = 65537
+		}
+		var b []byte
+		if k == "octal" || k == "hex" {
+			b = r.Bytes(n)
+		} else {
+			for len(b) < n {
+				switch r.Pick(3, 2, 2, 6, 1) {
+				case 0:
+					b = append(b, byte(r.Range(0, 0x7f)))
+				case 1:
+					b = utf8.AppendRune(b, rune(r.Range(0x80, 0x7ff)))
+				case 2:
+					b = utf8.AppendRune(b, rune(r.Range(0xe000, 0xffff)))
+				case 3:
+					b = utf8.AppendRune(b, rune(r.Range(0x10000, 0x10ffff)))
+				default:
+					b = append(b, byte(r.Range(0x80, 0xff))) // invalid byte
+				}
+			}
+		}
+		d := hx(b)
+		switch r.Pick(1, 1, 2) {
+		case 0:
+			lines = append(lines, "format "+d)
+		case 1:
+			lines = append(lines, "formatstr "+d)
+		default:
+			lines = append(lines, "roundtrip "+d, "format "+d)
+		}
+		return core.Case{Lines: lines, Tag: "large"}
+	}
+	// Parse of `size` bytes
+	var s []byte
+	switch r.Pick(4, 3, 3) {
+	case 0: // one long run of escapes of one kind (optionally lower-case digits)
+		for len(s) < size {
+			s = append(s, lowerHex(r, k, refFormat(k, randData(r, k, 64)))...)
+		}
+	case 1: // literal text, then escapes placed so that one straddles offset 4096 / 65536 / size
+		th := []int{4096, 65536, size}[r.Intn(3)]
+		if th > size {
+			th = 4096
+		}
+		lit := th - r.Range(0, w)
+		if lit < 0 {
+			lit = 0
+		}
+		for len(s) < lit {
+			c := byte(r.Range(32, 126))
+			if c == '\\' {
+				c = '/'
+			}
+			s = append(s, c)
+		}
+		for len(s) < size {
+			if r.Chance(70) {
+				s = append(s, refFormat(k, randData(r, k, 8))...)
+			} else {
+				s = append(s, randLiteral(r)...)
+			}
+		}
+	default: // long malformed token stream
+		toks := malformedTokens(k)
+		for len(s) < size {
+			if r.Chance(20) {
+				s = append(s, randLiteral(r)...)
+			} else {
+				s = append(s, toks[r.Intn(len(toks))]...)
+			}
+		}
+	}
+	// cut exactly at `size` (truncating the last escape at every residue) most of the time
+	if len(s) > size && r.Chance(80) {
+		s = s[:size]
+	}
+	h := hx(s)
+	switch r.Pick(2, 2, 3) {
+	case 0:
+		lines = append(lines, "parsestr "+h)
+	case 1:
+		lines = append(lines, "parsebytes "+h)
+	default:
+		lines = append(lines, fmt.Sprintf("parsen %s %d", h, len(s)), fmt.Sprintf("parsen %s %d", h, len(s)+1))
+		if len(s) <= 4096 {
+			lines = append(lines, fmt.Sprintf("parsen %s %d", h, len(s)-1)) // one short: cursor model only
+		}
+	}
+	return core.Case{Lines: lines, Tag: "large"}
+}
+
 func gen(r *core.Rand, tier string) core.Case {
 	k := codecs[r.Intn(4)]
+	// large stream: ~0.6 % of the cases (a few hundred in quick), 2 % in thorough
+	if (tier == "thorough" && r.Chance(2)) || (tier != "thorough" && r.Intn(1000) < 6) {
+		return genLarge(r, k, tier)
+	}
 	lines := []string{header(k)}
 	switch r.Pick(22, 22, 16, 32, 8) {
 	case 0: // (i) Format of random data
@@ -757,11 +911,15 @@ func corpus() []core.Case {
 			"parsestr "+h("\\X41"), "parsestr "+h("\\\\x41"), "parsestr "+h("\\x\\x41"), "parsebytes "+h("ab\\x41cd\\x42"), "parse "+h("\\x41")+" 0"),
 		mk("unicode", "format "+bnd, "roundtrip "+bnd, "format "+hx([]byte{0xff, 0xed, 0xa0, 0x80, 0xc0, 0x80, 0xe4, 0xb8}), "roundtrip "+hx([]byte{0xff, 'a', 0xe4, 0xb8}),
 			"parsestr "+h("\\U0001F600"), "parsestr "+h("\\U0010FFFF"), "parsestr "+h("\\U00110000"), "parsestr "+h("\\UFFFFFFFF"), "parsestr "+h("\\U0000D800"),
-			"parsestr "+h("\\U0000004"), "parsestr "+h("\\U0000\\U00000041"), "parsestr "+h("x\\U00000041y"), "parsestr "+h("\\U0000007f\\U00000080")),
+			"parsestr "+h("\\U0000004"), "parsestr "+h("\\U0000\\U00000041"), "parsestr "+h("x\\U00000041y"), "parsestr "+h("\\U0000007f\\U00000080"),
+			// magnitudes: 2^8, 2^16, 0x10FFFF±1, 2^31, 2^32-1, maximal leading zeros
+			"parsestr "+h("\\U000000FF\\U00000100\\U0000FFFF\\U00010000\\U0010FFFE\\U0010FFFF\\U00110000\\U7FFFFFFF\\U80000000\\UFFFFFFFF\\U00000000\\U00000001"),
+			"parsestr "+h("\\U0000d7ff\\U0000d800\\U0000dfff\\U0000e000\\U0000fffd")),
 		mk("utf16", "format "+bnd, "roundtrip "+bnd, "format "+hx([]byte{0xff, 0xed, 0xa0, 0x80, 0xf0, 0x9f, 0x98}), "parsestr "+h("\\uD83D\\uDE00"), "parsestr "+h("\\uD83D"),
 			"parsestr "+h("\\uDE00"), "parsestr "+h("\\uDE00\\uD83D"), "parsestr "+h("\\uD83D\\u0041"), "parsestr "+h("\\uD83Dx\\uDE00"), "parsestr "+h("\\uD83D\\uDE0"),
 			"parsestr "+h("\\uD83D\\uDE0g"), "parsestr "+h("\\uD800\\uD800\\uDC00"), "parsestr "+h("a\\uD83D\\uD83D\\uDE00b"), "parsestr "+h("\\uD83D\\\\uDE00\\u0041"),
-			"parsestr "+h("ab\\u00e9cd"), "parse "+h("abcdef\\uD83D\\uDE00")+" 18", "parse "+h("abcdefgh\\u0041")+" 5"),
+			"parsestr "+h("ab\\u00e9cd"), "parse "+h("abcdef\\uD83D\\uDE00")+" 18", "parse "+h("abcdefgh\\u0041")+" 5",
+			"parsestr "+h("\\u0000\\u007F\\u0080\\u00FF\\u0100\\u07FF\\u0800\\uD7FF\\uE000\\uFFFF\\uDBFF\\uDFFF\\uD800\\uDC00")),
 	}
 }
 
